@@ -189,11 +189,15 @@ class Check(Property):
         return None
 
     # ------------------------------------------------------------------ oracle: covariance on the real code
-    def reexpress(self, u, q, rng):
-        """the same physical quantity in other compatible units (exact)"""
+    def reexpress(self, u, q, rng, offset_ok=False):
+        """the same physical quantity in other compatible units (exact); offset temperature scales are
+        alternatives only for the operations whose offset calculus is defined for a lone temperature
+        (+, -, ordering, == between quantities): abs, %, //, * and comparison with a bare number are not
+        functions of the physical value on an offset scale (that calculus is C06's subject)"""
         P = regs.pools()
         tgt = {}
-        temps = ["kelvin", "degree_Celsius", "degree_Fahrenheit", "degree_Rankine", "degree_Reaumur"]
+        temps = ["kelvin", "degree_Celsius", "degree_Fahrenheit", "degree_Rankine", "degree_Reaumur"] if offset_ok \
+            else ["kelvin", "degree_Rankine"]
         if len(q._units) == 1 and next(iter(q._units)) in temps and next(iter(q._units.values())) == 1:
             return q.to(u.Unit(u.UnitsContainer({rng.choice(temps): 1})))
         for k, e in q._units.items():
@@ -242,8 +246,9 @@ class Check(Property):
             v.append(f"{tag}: an operand was modified by the plain form")
         # covariance
         try:
-            a2 = self.reexpress(u, a, rng)
-            b2 = self.reexpress(u, b, rng) if hasattr(b, "_units") else b
+            off = f in ("add", "sub", "lt", "le", "gt", "ge", "eq") and hasattr(b, "_units")
+            a2 = self.reexpress(u, a, rng, off)
+            b2 = self.reexpress(u, b, rng, off) if hasattr(b, "_units") else b
         except Exception as exc:  # noqa: BLE001
             return v + [f"{tag}: re-expressing an operand raised {type(exc).__name__}: {exc}"]
         r2 = run(lambda: self.apply(u, c, a2, b2))
